@@ -239,6 +239,33 @@ impl TupleVisitor for BatchV<'_> {
         self.0.spawn_batch(items).collect()
     }
 }
+/// spawn_batch whose iterator is dropped after `take` handles: Drop spawns the rest
+struct BatchPartV<'a>(&'a mut World, &'a [Vec<u64>], usize);
+impl TupleVisitor for BatchPartV<'_> {
+    type Out = Vec<Entity>;
+    fn visit<B: TupleB>(self) -> Vec<Entity> {
+        let items: Vec<B> = self.1.iter().map(|v| B::from_vals(v)).collect();
+        let mut it = self.0.spawn_batch(items);
+        let mut got = Vec::new();
+        for _ in 0..self.2 {
+            match it.next() {
+                Some(h) => got.push(h),
+                None => break,
+            }
+        }
+        drop(it);
+        got
+    }
+}
+/// Extend<B> for World
+struct ExtendV<'a>(&'a mut World, &'a [Vec<u64>]);
+impl TupleVisitor for ExtendV<'_> {
+    type Out = ();
+    fn visit<B: TupleB>(self) {
+        let items: Vec<B> = self.1.iter().map(|v| B::from_vals(v)).collect();
+        self.0.extend(items);
+    }
+}
 // exchange::<S, T>: outer visitor over S, inner over T (or a dynamic bundle)
 struct ExOuter<'a>(&'a mut World, Entity, &'a Bundle0);
 struct ExInner<'a, S>(&'a mut World, Entity, &'a [u64], std::marker::PhantomData<S>);
@@ -397,7 +424,10 @@ impl Engine {
                 r.take(k);
                 r.next();
             }
-            14 | 15 => {
+            14 | 15 | 17 | 18 | 19 => {
+                if opc >= 18 {
+                    r.next();
+                }
                 let k = r.next() as usize;
                 r.take(k);
                 let n = r.next() as usize;
@@ -448,7 +478,7 @@ impl Engine {
         if opc == 90 {
             return self.serde_op(r, out);
         }
-        if (100..=115).contains(&opc) {
+        if (100..=116).contains(&opc) {
             return self.guard_op(opc, r, out);
         }
         if opc == 23 {
@@ -529,10 +559,10 @@ impl Engine {
                 self.shadow[w].materialise();
                 let world = self.worlds[w].as_mut().unwrap();
                 let res = catch_unwind(AssertUnwindSafe(|| {
-                    if b.kind == 0 {
+                    if b.kind == 0 || b.kind >= 10 {
                         let types: Vec<u64> = b.items.iter().map(|x| x.0).collect();
                         let vals: Vec<u64> = b.items.iter().map(|x| x.1).collect();
-                        dispatch_tuple(&types, SpawnV(world, &vals)).expect("tuple type not in catalogue")
+                        crate::derived::dispatch_bundle(b.kind, &types, SpawnV(world, &vals)).expect("tuple type not in catalogue")
                     } else {
                         let mut eb = builder_from(&b.items);
                         world.spawn(eb.build())
@@ -563,10 +593,10 @@ impl Engine {
                 self.shadow[w].materialise();
                 let world = self.worlds[w].as_mut().unwrap();
                 let res = catch_unwind(AssertUnwindSafe(|| {
-                    if b.kind == 0 {
+                    if b.kind == 0 || b.kind >= 10 {
                         let types: Vec<u64> = b.items.iter().map(|x| x.0).collect();
                         let vals: Vec<u64> = b.items.iter().map(|x| x.1).collect();
-                        dispatch_tuple(&types, SpawnAtV(world, h, &vals)).expect("tuple type not in catalogue")
+                        crate::derived::dispatch_bundle(b.kind, &types, SpawnAtV(world, h, &vals)).expect("tuple type not in catalogue")
                     } else {
                         let mut eb = builder_from(&b.items);
                         world.spawn_at(h, eb.build())
@@ -596,10 +626,18 @@ impl Engine {
                 self.shadow[w].materialise();
                 let world = self.worlds[w].as_mut().unwrap();
                 let res = catch_unwind(AssertUnwindSafe(|| {
-                    if b.kind == 0 {
+                    if b.kind == 0 && b.items.len() == 1 && b.items[0].1 % 2 == 1 {
+                        // the single-component wrapper (same bundle type (T,))
+                        let (t, v) = b.items[0];
+                        let mut res = Ok(());
+                        with_comp!(t, C, {
+                            res = world.insert_one(h, C::new(v));
+                        });
+                        res
+                    } else if b.kind == 0 || b.kind >= 10 {
                         let types: Vec<u64> = b.items.iter().map(|x| x.0).collect();
                         let vals: Vec<u64> = b.items.iter().map(|x| x.1).collect();
-                        dispatch_tuple(&types, InsertV(world, h, &vals)).expect("tuple type not in catalogue")
+                        crate::derived::dispatch_bundle(b.kind, &types, InsertV(world, h, &vals)).expect("tuple type not in catalogue")
                     } else {
                         let mut eb = builder_from(&b.items);
                         world.insert(h, eb.build())
@@ -636,7 +674,39 @@ impl Engine {
                 }
                 self.shadow[w].materialise();
                 let world = self.worlds[w].as_mut().unwrap();
+                let one = ts.len() == 1 && h.id() % 2 == 1;
                 let res = catch_unwind(AssertUnwindSafe(|| match &b {
+                    None if one => {
+                        // remove_one::<T> = remove::<(T,)>
+                        let mut res = Ok(Vec::new());
+                        with_comp!(ts[0], C, {
+                            res = world.remove_one::<C>(h).map(|c| {
+                                let n = drops_len();
+                                let v = vec![(ts[0], c.val())];
+                                drop(c);
+                                truncate_drops(n);
+                                v
+                            });
+                        });
+                        res
+                    }
+                    Some(b) if one && b.kind == 0 && b.items.len() == 1 => {
+                        // exchange_one::<S, T> = exchange::<(S,), (T,)>
+                        let (t2, v2) = b.items[0];
+                        let mut res = Ok(Vec::new());
+                        with_comp!(ts[0], S, {
+                            with_comp!(t2, T, {
+                                res = world.exchange_one::<S, T>(h, T::new(v2)).map(|c| {
+                                    let n = drops_len();
+                                    let v = vec![(ts[0], c.val())];
+                                    drop(c);
+                                    truncate_drops(n);
+                                    v
+                                });
+                            });
+                        });
+                        res
+                    }
                     None => dispatch_tuple(&ts, RemoveV(world, h)).expect("tuple type not in catalogue"),
                     Some(b) => dispatch_exs(&ts, ExOuter(world, h, b)).expect("S not in catalogue").expect("T not in catalogue"),
                 }));
@@ -816,6 +886,88 @@ impl Engine {
                     Ok(()) => self.emit(&mut obs, 0, &[], out),
                     Err(e) => {
                         self.poisoned[w] = true;
+                        self.emit(&mut obs, 9, &[panic_class(&e).0], out);
+                    }
+                }
+            }
+            17 | 18 | 19 => {
+                // 17: Extend; 18 / 19: spawn_batch / spawn_column_batch with the iterator dropped after `take` handles
+                let take = if opc >= 18 { r.next() as usize } else { 0 };
+                let k = r.next() as usize;
+                let ts = r.take(k);
+                let n = r.next() as usize;
+                let rows: Vec<Vec<u64>> = (0..n).map(|_| r.take(k)).collect();
+                let all: Vec<(u64, u64)> = rows.iter().flat_map(|row| ts.iter().copied().zip(row.iter().copied())).collect();
+                self.ledger.give(&all, &sizes, out);
+                // reservations that the call flushes into real entities were not spawned by it
+                let mut before: HashSet<u64> = self.shadow[w].reserved.iter().copied().collect();
+                if opc != 17 || n > 0 {
+                    // Extend over no rows never calls spawn, hence never flushes
+                    self.shadow[w].materialise();
+                }
+                let world = self.worlds[w].as_mut().unwrap();
+                before.extend(world.iter().map(|e| -> u64 { e.entity().to_bits().into() }));
+                let res = catch_unwind(AssertUnwindSafe(|| match opc {
+                    17 => {
+                        dispatch_tuple(&ts, ExtendV(world, &rows)).expect("tuple type not in catalogue");
+                        Vec::new()
+                    }
+                    18 => dispatch_tuple(&ts, BatchPartV(world, &rows, take)).expect("tuple type not in catalogue"),
+                    _ => {
+                        let b = Self::make_batch(&ts, &rows).expect("complete batch");
+                        let mut it = world.spawn_column_batch(b);
+                        let mut got = Vec::new();
+                        for _ in 0..take {
+                            match it.next() {
+                                Some(h) => got.push(h),
+                                None => break,
+                            }
+                        }
+                        drop(it);
+                        got
+                    }
+                }));
+                match res {
+                    Ok(got) => {
+                        // the handles the caller did not receive: found by iteration, appended sorted by bits
+                        let world = self.worlds[w].as_ref().unwrap();
+                        let known: HashSet<u64> = got.iter().map(|h| h.to_bits().into()).collect();
+                        let mut rest: Vec<Entity> = world
+                            .iter()
+                            .map(|e| e.entity())
+                            .filter(|h| !before.contains(&h.to_bits().into()) && !known.contains(&h.to_bits().into()))
+                            .collect();
+                        rest.sort_by_key(|h| -> u64 { h.to_bits().into() });
+                        if got.len() + rest.len() != n {
+                            out.flag(format!("C01/C12: {n} rows were given but {} new entities exist", got.len() + rest.len()));
+                        }
+                        // which row each new entity holds: read back its first sized component, else by order
+                        let order: Vec<Entity> = got.iter().copied().chain(rest.iter().copied()).collect();
+                        for h in &order {
+                            // the shadow map is re-read from the world for these entities (their row is not known
+                            // to the caller); the model comparison of the probes judges the values
+                            let er = world.entity(*h).unwrap();
+                            let mut items = Vec::new();
+                            for t in 0..NTYPES as u64 {
+                                with_comp!(t, C, {
+                                    if let Some(c) = er.get::<&C>() {
+                                        items.push((t, if sizes[t as usize] == 0 { 0 } else { c.val() }));
+                                    }
+                                });
+                            }
+                            self.shadow[w].ents.insert(h.to_bits().into(), items.into_iter().collect());
+                        }
+                        for h in &order {
+                            self.issue(w, *h, out);
+                        }
+                        let bits: Vec<u64> = if opc == 17 { vec![order.len() as u64] } else { got.iter().map(|h| h.to_bits().into()).collect() };
+                        self.emit(&mut obs, 0, &bits, out);
+                    }
+                    Err(e) => {
+                        self.poisoned[w] = true;
+                        for _ in 0..n {
+                            self.handles.push(nohandle());
+                        }
                         self.emit(&mut obs, 9, &[panic_class(&e).0], out);
                     }
                 }
